@@ -346,7 +346,12 @@ def r4(k: Kit) -> None:
     rows: Dict[str, int] = {}
     bad: Dict[str, str] = {}
     n = 0
-    any_t = idx.fold_name(idx.module('sshsig'), 'CERT_TYPE_ANY')
+    # the certificate type the signer certificate is validated for (the
+    # value itself is decided by C16.R15)
+    any_t = next((idx.fold_name(idx.module('sshsig'), nm) for nm in
+                  ('CERT_TYPE_USER', 'CERT_TYPE_ANY')
+                  if isinstance(idx.fold_name(idx.module('sshsig'), nm),
+                                int)), None)
     for s in product(space):
         n += 1
 
@@ -943,3 +948,46 @@ def run(idx, rep, tier):
     _kept = [o for o in rep.obligations[_b4:] if 'sshsig' in o.key]
     del rep.obligations[_b4:]
     rep.obligations.extend(_kept)
+    rep.rule('C16.R15', 'SSHSIG: a signer certificate is validated as a '
+             'user certificate (cert.validate(CERT_TYPE_USER, principal)) - '
+             'validating with CERT_TYPE_ANY lets a host certificate sign '
+             'for a principal')
+    _fv = [f for f in k.idx.iter_funcs(['sshsig'])]
+    _nv = 0
+    for _f in _fv:
+        for _c in ast.walk(_f.node):
+            if is_call(_c, 'validate') and _c.args and \
+                    (dotted(_c.args[0]) or '').startswith('CERT_TYPE_'):
+                _nv += 1
+                rep.check(dotted(_c.args[0]) == 'CERT_TYPE_USER', 'C16.R15',
+                          key(_f, 'signer certificates are user '
+                                  'certificates'),
+                          'validate(CERT_TYPE_USER, principal)',
+                          f'`{norm(_c)}`: a signature made with a host '
+                          'certificate of the CA validates for the '
+                          'principal (ssh-keygen -Y verify requires a user '
+                          'certificate)', _f.loc(_c))
+    rep.floor('C16.R15', 'certificate validations in sshsig', _nv, 1)
+    rep.rule('C16.R16', 'SSHOpenSSHCertificate.construct: every principal '
+             'read from the certificate is kept - principals.append() is '
+             'not conditional on the name: dropping the empty name turns '
+             'a certificate for principal "" into one that lists none and '
+             'is therefore valid for every user, host and signer')
+    _fcc = k.func('public_key.SSHOpenSSHCertificate.construct')
+    _gcc = k.cfg(_fcc)
+    _ap = [n for n, c in k.calls_named(_fcc, 'append', 'principals')]
+    rep.floor('C16.R16', 'principal stores', len(_ap), 1)
+    for _n in _ap:
+        _cond = [a for a in _gcc.nodes if a.kind == 'atom' and
+                 a.ast is not None and 'principal' in names_read(a.ast) and
+                 any(_gcc.guarded_by(_n.id, lambda x, a=a, e=e: e
+                                     if x.id == a.id else None) is None
+                     for e in (True, False))]
+        rep.check(not _cond, 'C16.R16', key(_fcc, 'all principals kept'),
+                  'principals.append(principal) unconditionally',
+                  f'the store depends on `{norm(_cond[0].ast) if _cond else ""}`: '
+                  'a CA-signed certificate whose only principal is "" '
+                  'validates for root, for any host name and for any '
+                  'SSHSIG identity', k.loc(_fcc, _n))
+    from .c05 import r3 as _c05r3
+    share(k, 'C16.R17', 'a publickey request that carries a signature is decided by verifying it (= C05.R3): no "signature present but empty" path returns True without key.verify()', _c05r3, keep=lambda key: 'validate_public_key' in key)
